@@ -470,11 +470,11 @@ func (w *world) mkRequest(q *ReqSpec) *libmem.Request {
 }
 
 type offerRec struct {
-	offer *libmem.Offer
-	req       *ReqSpec
-	key       string // map-order key under which the offer was computed
-	stale     string // "" = fresh; else the kind of the first intervening state change
-	staleOp   int
+	offer   *libmem.Offer
+	req     *ReqSpec
+	key     string // map-order key under which the offer was computed
+	stale   string // "" = fresh; else the kind of the first intervening state change
+	staleOp int
 }
 
 func updStr(u map[string]libmem.NodeMask) string {
